@@ -139,6 +139,37 @@ Fixpoint clean_start_leftover (st : astate) (evs : list event) : bool :=
   | e :: rest => clean_start_leftover (fold_left astep (hook_awrites e) st) rest
   end.
 
+(* KF (C09-1, pinned by an existing test): after an acknowledgement frees send quota, the broker
+   sends the next message held back by flow control and deletes its in-flight record right away
+   (server.go processPacket, NextImmediate) without telling the hooks: the stored record stays.  It can
+   only happen to a session whose client gave a Receive Maximum and had more PUBLISH records in flight
+   than that; [held_back] recognises such histories from the stored records. *)
+Definition recv_max_of (c : client_rec) : N :=
+  match cr_props c with VL [_; _; _; VN rm; _; _; _] => rm | _ => 0 end.
+
+Definition stored_publishes (c : bytes) (st : astate) : N :=
+  N.of_nat (length (filter (fun e : ifm_key * (pkt * N) =>
+                              beq_bytes (fst (fst e)) c && (fh_type (p_fh (fst (snd e))) =? 3)) (as_ifm st))).
+
+Fixpoint held_back (st : astate) (rm : amap bytes N) (evs : list event) : bool :=
+  match evs with
+  | [] => false
+  | e :: rest =>
+      let st' := fold_left astep (hook_awrites e) st in
+      let rm' := match e with
+                 | ESessionEstablished c => aset beq_bytes (cr_id (rc_rec c)) (recv_max_of (rc_rec c)) rm
+                 | _ => rm
+                 end in
+      match e with
+      | EQosPublish cid _ _ =>
+          match aget beq_bytes cid rm' with
+          | Some n => (0 <? n) && (n <? stored_publishes cid st')
+          | None => false
+          end
+      | _ => false
+      end || held_back st' rm' rest
+  end.
+
 (* ---------- specification ---------- *)
 
 (* C21 for one crash point: the restarted broker holds exactly the state the first k writes describe
